@@ -874,13 +874,17 @@ snarf_fld(struct ical_vevent_s ve[static 1U],
 			if (l.ndt == 0UL) {
 				break;
 			}
-			switch (fld) {
-			case FLD_XDATE:
-				ve->xdat = l;
-				break;
-			case FLD_RDATE:
-				ve->rdat = l;
-				break;
+			with (struct dtlst_s *tgt =
+			      fld == FLD_XDATE ? &ve->xdat : &ve->rdat) {
+				if (tgt->ndt == 0UL) {
+					*tgt = l;
+					break;
+				}
+				/* another line of the same kind, append */
+				for (size_t i = 0U; i < l.ndt; i++) {
+					add1_to_dtlst(tgt, l.dt[i]);
+				}
+				free(l.dt);
 			}
 		}
 		break;
